@@ -157,6 +157,18 @@ func main() {
 				}
 				continue
 			}
+			// a double travels as text under both protocols: the RESP2 bulk string carries exactly the text of
+			// the RESP3 double (compared here without the implementation's own conversion, which would agree
+			// with itself whatever it prints)
+			if len(r3) > 3 && r3[0] == ',' {
+				text := r3[1 : len(r3)-2]
+				want := []byte(fmt.Sprintf("$%d\r\n%s\r\n", len(text), text))
+				stats["doubles_compared_as_text"]++
+				if !bytes.Equal(r2, want) {
+					fail(seq, trace, fmt.Sprintf("%q: the RESP3 reply is the double %q, the RESP2 reply %q does not carry the same text", argv, r3, r2))
+					break
+				}
+			}
 			same := bytes.Equal(d, r2)
 			if !same && (name == "pexpiretime" || name == "expiretime") {
 				same = true // deadlines set from two different clock readings
